@@ -981,11 +981,15 @@ pub fn run_op(ctx: &mut Ctx, op: &str) {
         run_large(ctx, op);
         return;
     }
+    if op.starts_with("pwx ") {
+        run_pwx(ctx, op);
+        return;
+    }
     if op.starts_with("mix ") {
         run_mix(ctx, op);
         return;
     }
-    let bad = |ctx: &mut Ctx| {
+    let bad =|ctx: &mut Ctx| {
         ctx.record(op.to_string(), "bad-op".into(), false);
     };
     let t: Vec<&str> = op.splitn(8, ' ').collect();
@@ -1613,7 +1617,15 @@ fn run_case_x(ctx: &mut Ctx, c: &Case, mode: Mode) -> Option<Vec<usize>> {
             format!("err {}", e)
         }
         Ran::Panic(m) => {
-            verdict = Some((panic_sig(m), format!("{} [{}]", m, algo)));
+            // K9: the overflow of ArcSwap's merge formula is told apart from every other panic by
+            // its place AND by the arithmetic condition under which it can happen at all
+            match merge_overflow_bound(&c, &tw, m) {
+                Some(why) => {
+                    ctx.count("arcswap:merge-formula-overflow(K9)");
+                    verdict = Some((format!("{}{}", panic_sig(m), K9_TAG), format!("{} [{}; {}]", m, algo, why)));
+                }
+                None => verdict = Some((panic_sig(m), format!("{} [{}]", m, algo))),
+            }
             format!("panic {}", m)
         }
         Ran::Hang => {
@@ -1640,6 +1652,258 @@ fn run_case_x(ctx: &mut Ctx, c: &Case, mode: Mode) -> Option<Vec<usize>> {
     match ran {
         Ran::Ok(ids, _) => Some(ids),
         _ => None,
+    }
+}
+
+// ------------------------------------------------------------------ K9: part weight x tasks
+
+/// Suffix of the signature of the known finding K9 (KNOWN_FINDINGS.json matches only this).
+const K9_TAG: &str = " @part-weight-x-tasks-overflows";
+
+/// K9 (arc_swap.rs, not repaired): at the end of a pass the per-task part-weight arrays are summed
+/// (`*pw1 += pw2` in the rayon reduce) and `PW <- sum - (thread_count - 1) * PW` is computed in the
+/// weight type.  A task's copy of a part weight never exceeds `PW + (max_part_weight - PW) /
+/// thread_count`, so the sum over the tasks is at most `thread_count x max(PW, max_part_weight)`.
+/// `Some(why)` iff the panic `m` is an integer add / multiply overflow raised in arc_swap.rs AND
+/// that bound - thread_count computed by the code's own `work_share`, the largest input part weight
+/// or the cap, whichever is larger - exceeds the range of the weight type the case is run with.
+/// Below the bound the merge formula cannot overflow: an overflow there is another defect and keeps
+/// its ordinary signature.
+fn merge_overflow_bound(c: &Case, tw: &Tweak, m: &str) -> Option<String> {
+    let Case::ArcSwap { threads, f64w, mi, ids, ws, .. } = c else { return None };
+    if !(m.contains("arc_swap.rs") && (m.contains("attempt to add with overflow") || m.contains("attempt to multiply with overflow"))) {
+        return None;
+    }
+    if ids.is_empty() || ids.len() != ws.len() || *threads == 0 {
+        return None;
+    }
+    // the weight type of the call (see `call_case`)
+    let small = ws.iter().all(|&w| (0..1 << 24).contains(&w));
+    let plumb = if matches!(tw.plumb, 8 | 9 | 11) && !small { 0 } else { tw.plumb };
+    let (ty, type_max): (&str, i128) = match plumb {
+        8 => ("i32", i32::MAX as i128),
+        9 => ("u32", u32::MAX as i128),
+        10 => ("u64", u64::MAX as i128),
+        11 => return None,
+        _ if *f64w => return None,
+        _ => ("i64", i64::MAX as i128),
+    };
+    let k = (1 + ids.iter().copied().max().unwrap_or(0)).max(2);
+    let mut loads = vec![0i128; k];
+    for (&i, &w) in ids.iter().zip(ws) {
+        loads[i] += w as i128;
+    }
+    let total: i128 = loads.iter().sum();
+    if total > type_max {
+        return None; // outside the contract anyway
+    }
+    let mut bound = loads.iter().copied().max().unwrap_or(0);
+    if let Some(mi) = mi {
+        let ideal = total as f64 / k as f64;
+        bound = bound.max((ideal + mi * ideal) as i128);
+    }
+    let (_, tasks) = coupe::verif::work_share(ids.len(), *threads);
+    if bound * tasks as i128 > type_max {
+        Some(format!(
+            "{} weights, total {} fits, largest part weight or cap {} x {} tasks = {} > {}",
+            ty,
+            total,
+            bound,
+            tasks,
+            bound * tasks as i128,
+            type_max
+        ))
+    } else {
+        None
+    }
+}
+
+/// `pwx <threads> <i|u> <none|hex cap> <path|grid|sparse|k9> <n> <k> <e> <seed>`: ArcSwap on `i64`
+/// (`i`) or `u64` (`u`) weights whose PART weights lie in [2^59, 2^e] (e = 59..62) while the TOTAL
+/// fits the type (inside the usage contract: "sums that do not overflow"): every part holds 1..3
+/// heavy vertices, the others weigh 0..3.  The expansion is deterministic in the fields.  `k9`: the
+/// recorded reproducer of K9 (path on 4096 vertices, four vertices of weight 2^60).  The Lean
+/// driver answers `skip part-weight-x-tasks-may-overflow (oracle only)`: the model computes in
+/// exact integers and several tasks run freely.
+fn expand_pwx(threads: usize, unsigned: bool, mi: Option<f64>, shape: &str, n: usize, k: usize, e: u32, seed: u64) -> Option<Case> {
+    if shape == "k9" {
+        if n != 4096 || k != 2 || e != 60 {
+            return None;
+        }
+        let mut rows: Rows = vec![vec![]; n];
+        for v in 0..n {
+            if v > 0 {
+                rows[v].push((v - 1, 1));
+            }
+            if v + 1 < n {
+                rows[v].push((v + 1, 1));
+            }
+        }
+        let mut ws = vec![1i64; n];
+        for p in [10, 11, 4085, 4086] {
+            ws[p] = 1 << 60;
+        }
+        let mut ids: Vec<usize> = (0..n).map(|i| (i >= 2048) as usize).collect();
+        ids[2047] = 1;
+        ids[2045] = 1;
+        return Some(Case::ArcSwap { threads, f64w: false, mi, rows, ids, ws });
+    }
+    let mut rng = Rng::new(seed ^ 0xC02_9A27);
+    let rows: Rows = match shape {
+        "path" => {
+            let mut rows: Rows = vec![vec![]; n];
+            for v in 0..n {
+                if v > 0 {
+                    rows[v].push((v - 1, 1));
+                }
+                if v + 1 < n {
+                    rows[v].push((v + 1, 1));
+                }
+            }
+            rows
+        }
+        "grid" => large_graph(&mut rng, n, 0),
+        "sparse" => large_graph(&mut rng, n, 1),
+        _ => return None,
+    };
+    // blocks; one heavy vertex at least per block keeps its id, about one other vertex in 16 gets
+    // a random id (a ragged cut: there is something to improve)
+    let mut ids: Vec<usize> = (0..n).map(|i| i * k / n).collect();
+    let mut ws: Vec<i64> = (0..n).map(|_| if unsigned && mi.is_some() { 1 } else { rng.range(0, 3) }).collect();
+    // the heavy load of a part: at most 2^e, and k of them (plus the light weights) fit i64
+    let top: i64 = (1i64 << e).min((i64::MAX - 4 * n as i64) / k as i64);
+    let mut heavy = vec![false; n];
+    for p in 0..k {
+        let members: Vec<usize> = (0..n).filter(|&i| ids[i] == p).collect();
+        // unsigned weights must not start above the cap (outside the contract, see f2_*.case)
+        let load = if unsigned && mi.is_some() { top } else { (top - rng.range(0, top / 4)).max(1 << 59) };
+        let h = 1 + rng.usize(3.min(members.len()));
+        let mut left = load;
+        for j in 0..h {
+            let mut v = members[rng.usize(members.len())];
+            while heavy[v] {
+                v = members[rng.usize(members.len())];
+            }
+            heavy[v] = true;
+            let w = if j + 1 == h { left } else { load / h as i64 };
+            ws[v] = w;
+            left -= w;
+        }
+    }
+    for i in 0..n {
+        if !heavy[i] && rng.chance(1, 16) {
+            ids[i] = rng.usize(k);
+        }
+    }
+    let c = Case::ArcSwap { threads, f64w: false, mi, rows, ids, ws };
+    if unsigned && arcswap_part_above_cap(&c) {
+        return None;
+    }
+    Some(c)
+}
+
+fn run_pwx(ctx: &mut Ctx, op: &str) {
+    let t: Vec<&str> = op.split_whitespace().collect();
+    let num = |s: &str| -> Option<u64> {
+        if s.is_empty() || !s.bytes().all(|b| b.is_ascii_digit()) {
+            return None;
+        }
+        s.parse().ok()
+    };
+    let parsed = (|| {
+        if t.len() != 9 {
+            return None;
+        }
+        let threads = num(t[1])? as usize;
+        let unsigned = match t[2] {
+            "i" => false,
+            "u" => true,
+            _ => return None,
+        };
+        let mi = match t[3] {
+            "none" => None,
+            h => {
+                let bits = u64::from_str_radix(h, 16).ok()?;
+                // 0.0 ..= 1.0
+                if h.starts_with('+') || h.len() > 16 || bits > 0x3ff0_0000_0000_0000 {
+                    return None;
+                }
+                Some(f64::from_bits(bits))
+            }
+        };
+        let n = num(t[5])? as usize;
+        let k = num(t[6])? as usize;
+        let e = num(t[7])? as u32;
+        let seed = num(t[8])?;
+        if threads < 1 || threads > 16 || n < 100 || n > 20000 || k < 2 || k > 8 || e < 59 || e > 62 {
+            return None;
+        }
+        Some((expand_pwx(threads, unsigned, mi, t[4], n, k, e, seed)?, unsigned))
+    })();
+    let Some((c, unsigned)) = parsed else {
+        ctx.record(op.to_string(), "bad-op".into(), false);
+        return;
+    };
+    if let Case::ArcSwap { threads, ids, ws, mi, .. } = &c {
+        let k = 1 + ids.iter().copied().max().unwrap_or(0);
+        let mut loads = vec![0i128; k];
+        for (&i, &w) in ids.iter().zip(ws) {
+            loads[i] += w as i128;
+        }
+        let total: i128 = loads.iter().sum();
+        // the generator's promise: inside the contract (the total fits the weight type, i64 for both)
+        if !(total <= i64::MAX as i128 && loads.iter().all(|&l| l >= 1 << 59 && l <= (1 << 62) + 4 * ids.len() as i128)) {
+            ctx.count("pwx:GENERATOR-BUG(not run)");
+            ctx.record(op.to_string(), "bad-op".into(), false);
+            return;
+        }
+        let (_, tasks) = coupe::verif::work_share(ids.len(), *threads);
+        let type_max = if unsigned { u64::MAX as i128 } else { i64::MAX as i128 };
+        let max = loads.iter().copied().max().unwrap_or(0);
+        ctx.count(&format!("pwx:{}:{}", if unsigned { "u64" } else { "i64" }, t[4]));
+        ctx.count(&format!("pwx:tasks:{}", tasks));
+        ctx.count(&format!("pwx:cap:{}", cap_name(*mi)));
+        ctx.count(if max * tasks as i128 > type_max {
+            "pwx:part-weight-x-tasks:above-type-range"
+        } else {
+            "pwx:part-weight-x-tasks:within-type-range"
+        });
+    }
+    let tw = Tweak { plumb: if unsigned { 10 } else { 0 }, ..Tweak::default() };
+    let before = ctx.failures.len();
+    let out = run_case_x(ctx, &c, Mode { label: Some(op.to_string()), tw, ..Mode::default() });
+    ctx.count(if out.is_some() {
+        "pwx:returned"
+    } else if ctx.failures.len() > before {
+        "pwx:failed"
+    } else {
+        "pwx:other"
+    });
+}
+
+/// The K9 stream (every run): see `expand_pwx`.
+fn pwx_stream(ctx: &mut Ctx) {
+    const SHAPES: [&str; 3] = ["path", "grid", "sparse"];
+    const POOLS: [usize; 5] = [1, 2, 4, 8, 16];
+    const SIZES: [usize; 5] = [257, 1000, 4096, 6001, 12289];
+    // the reproducer's family: every pool size
+    for th in POOLS {
+        let s = ctx.rng.below(1 << 40);
+        run_op(ctx, &format!("pwx {} i none k9 4096 2 60 {}", th, s));
+    }
+    let rounds = ctx.budget(3, 12);
+    for r in 0..rounds {
+        for (si, shape) in SHAPES.iter().enumerate() {
+            for (pi, th) in POOLS.iter().enumerate() {
+                let unsigned = (si + pi + r) % 3 == 2;
+                let mi = if (si + 2 * pi + r) % 2 == 0 { "none" } else { "3fb999999999999a" };
+                let n = SIZES[ctx.rng.usize(if ctx.tier == Tier::Quick { 4 } else { 5 })];
+                let k = *ctx.rng.pick(&[2usize, 2, 3, 4, 8]);
+                let e = 59 + ctx.rng.usize(4);
+                let s = ctx.rng.below(1 << 40);
+                run_op(ctx, &format!("pwx {} {} {} {} {} {} {} {}", th, if unsigned { "u" } else { "i" }, mi, shape, n, k, e, s));
+            }
+        }
     }
 }
 
@@ -2433,6 +2697,9 @@ pub fn generate(ctx: &mut Ctx) {
             run_op(ctx, &format_op(&Case::Fm { threads, f64w, mi, mb, mp, mm, rows, ids, ws }));
         }
     }
+    // (4) K9: part weights of 2^59..2^62 with a total that fits (last: the streams above keep their
+    // random draws) ---------------------------------------------------------------------------
+    pwx_stream(ctx);
 }
 
 
